@@ -13,7 +13,7 @@ from .. import attach, cv, gen, lib, ref
 from ..lib import call
 
 PROP = "C15"
-PLAN = {"quick": (768 + 400, 500), "thorough": (12288 + 6000, 3600)}
+PLAN = {"quick": (1024 + 400, 500), "thorough": (16384 + 6000, 4500)}
 STEP_BUDGET = 60_000_000  # Intersection of two multi-span cubics legitimately needs ~1e7 loop line events
 WITH_REPO_TESTS = True  # thorough tier also runs the repository's own suite under M1 / M3 / M4
 RULE = ("case = 2-3 initial curves (two of them built from the same KnotVector object, one a copy) + a program of 5-25 "
@@ -44,6 +44,8 @@ BASES = [
     {"A": {"U": [0, 0, 0, "1/2", 1, 1, 1], "P": [1, 3, -2, 4], "W": None}, "dim": 0},
     {"A": {"U": [-1, -1, -1, 0, 0, 1, 1, 1], "P": [[1, 0], [2, 3], [0, 1], [-2, 2], [3, 3]], "W": [1, 2, "1/2", 3, 1]}, "dim": 2},
     {"A": {"U": [0, 0, "1/3", "2/3", 1, 1], "P": [[0, 0], [1, 2], [3, 1], [4, 4]], "W": None}, "dim": 2},
+    # negative control weight, positive weight function 1 - 3u + 5u^2; one elevation gives the weights (1, 0, 2/3, 3)
+    {"A": {"U": [0, 0, 0, 1, 1, 1], "P": [[1, 0], [2, 3], [0, 1]], "W": [1, "-1/2", 3]}, "dim": 2},
 ]
 
 
@@ -51,8 +53,8 @@ def enum_size(tier):
     return len(BASES) * len(ALPHABET) ** (2 if tier == "quick" else 3)
 
 
-ENUMERATED = {"quick": (enum_size("quick"), "every sequence of 2 steps of a 16-step alphabet (valid and invalid requests) on 3 fixed groups of curves sharing a KnotVector"),
-              "thorough": (enum_size("thorough"), "every sequence of 3 steps of a 16-step alphabet (valid and invalid requests) on 3 fixed groups of curves sharing a KnotVector")}
+ENUMERATED = {"quick": (enum_size("quick"), "every sequence of 2 steps of a 16-step alphabet (valid and invalid requests) on 4 fixed groups of curves sharing a KnotVector"),
+              "thorough": (enum_size("thorough"), "every sequence of 3 steps of a 16-step alphabet (valid and invalid requests) on 4 fixed groups of curves sharing a KnotVector")}
 
 
 def enum_case(idx, tier):
@@ -80,6 +82,18 @@ def gen_case(rng, idx, tier):
     dim = rng.choice([0, 2, 2])
     A = gen.curve(rng, pmax=3, nintmax=2, dim=dim, wratio=9)
     n = len(A["P"])
+    negw = False
+    if A["W"] is not None and n >= 3 and rng.random() < 0.5:
+        # a negative control weight under a weight function that stays positive: a valid curve whose refined weight
+        # vector may contain 0 (elevating w = (1, -1/2, 3) once gives (1, 0, 2/3, 3))
+        Wn = list(A["W"])
+        i = rng.randrange(1, n - 1)
+        Wn[i] = -Wn[i - 1] * rng.choice([F(1, 2), F(1, 2), F(1, 3), F(1, 4), F(1)])
+        pA = ref.degree(A["U"])
+        lo, hi = A["U"][0], A["U"][-1]
+        if min(sum(x * y for x, y in zip(ref.basis(A["U"], pA, lo + (hi - lo) * F(k, 240))[:n], Wn)) for k in range(241)) >= F(1, 10):
+            A["W"] = Wn
+            negw = True
     B_P = gen.points(rng, n, dim)
     C = gen.curve(rng, pmax=2, nintmax=2, dim=dim, itv=(A["U"][0], A["U"][-1]), wratio=9)
     nsteps = rng.randint(5, 25) if tier == "quick" else rng.randint(10, 40)
@@ -87,7 +101,10 @@ def gen_case(rng, idx, tier):
     for _ in range(nsteps):
         op = rng.choice(MUT) if rng.random() < 0.6 else rng.choice(PURE)
         steps.append({"op": op, "t": rng.randrange(64), "o": rng.randrange(64), "bad": rng.random() < 0.3, "r": [rng.randrange(10**6) for _ in range(4)]})
-    return {"A": cv.enc_curve(A, nt), "B_P": lib.enc(B_P), "C": cv.enc_curve(C, nt), "numtype": nt, "steps": steps, "dim": dim}
+    d = {"A": cv.enc_curve(A, nt), "B_P": lib.enc(B_P), "C": cv.enc_curve(C, nt), "numtype": nt, "steps": steps, "dim": dim}
+    if negw:
+        d["negw"] = True
+    return d
 
 
 def whole_interval_ok(ctx, c, tag):
@@ -109,6 +126,12 @@ def run_case(case, ctx):
     dim = case["dim"]
     U, P, W, _ = cv.dec_curve(case["A"])
     kv = KnotVector(lib.nums(U, nt))
+    if case.get("negw"):
+        o = call(Curve, kv, lib.mk_points(P, nt), lib.nums(W, nt))
+        if not o.ok:  # the library may refuse weights it cannot certify as root free
+            ctx.count("negative_weight_refused")
+            return
+        ctx.count("negative_weight_curves")
     a0 = Curve(kv, lib.mk_points(P, nt), None if W is None else lib.nums(W, nt))
     b0 = Curve(kv, lib.mk_points(lib.dec(case["B_P"]), nt))  # same KnotVector object
     UC, PC, WC, _ = cv.dec_curve(case["C"])
